@@ -28,13 +28,28 @@ def make_desc(rng, shape):
     # ids that straddle a change of decimal width now and then (97..104, 9..12)
     tid, pid = rng.choice([100, 100, 97, 9996]), rng.choice([10, 10, 8, 98])
     ranks = rng.random() < 0.4
+    # ranks placed block-wise (consecutive in a loom), cyclically over the looms, in reverse or at random
+    nproc = sum(len(procs) for (_, procs) in shape)
+    rlist = list(range(nproc))
+    if ranks:
+        place = rng.choice(["block", "cyclic", "reverse", "random"])
+        if place == "cyclic":
+            slots = [(k, li) for li, (_, procs) in enumerate(shape) for k in range(len(procs))]
+            order = sorted(range(nproc), key=lambda x: slots[x])
+            rlist = [0] * nproc
+            for r_, x in enumerate(order):
+                rlist[x] = r_
+        elif place == "reverse":
+            rlist.reverse()
+        elif place == "random":
+            rng.shuffle(rlist)
     rk = 0
     for li, (ncpus, procs) in enumerate(shape):
         ps = []
         for nt in procs:
             p = {"pid": pid, "appid": 1 + (pid % 3), "threads": list(range(tid, tid + nt))}
             if ranks:
-                p["rank"], p["nranks"] = rk, 64
+                p["rank"], p["nranks"] = rlist[rk], 64
                 rk += 1
             ps.append(p)
             tid += nt; pid += 1
